@@ -366,6 +366,10 @@ static std::string constructCase(Ctx& cx, const std::string& kind, const std::st
 static void streamConstruct(Ctx& cx, Rng& r, long n, Out& out) {
     for (long i = 0; i < n; i++) {
         CGen gen(r, out); gen.grid = r.chance(55); gen.sim = randomSim(r, gen.grid);
+        // grid inputs far from the origin: an exact integer translation by +-2^k, k = 20..30 (coordinates stay exact integers below 2^32, the
+        // extent stays small): formulas that do not translate to a local origin first lose all their precision here
+        if (gen.grid && r.chance(15)) { double d = std::ldexp(1.0, (int) r.range(20, 30)); gen.sim.id = false; gen.sim.a = 1; gen.sim.b = 0;
+            gen.sim.tx = r.chance(50) ? d : -d; gen.sim.ty = r.chance(30) ? 0 : (r.chance(50) ? d : -d); out.count("coords_grid_far_from_origin"); }
         out.count(gen.grid ? "coords_grid" : "coords_full_precision");
         std::string gl = "0 " + gen.any(0);
         bool ok = false; std::string c = constructCase(cx, gen.grid ? "grid" : "full", gl, ok);
